@@ -212,7 +212,14 @@ func (r *Run) Finish(level string) int {
 			discharged++
 			continue
 		}
-		if f, ok := open[o.Rule+"|"+o.Key]; ok {
+		f, ok := open[o.Rule+"|"+o.Key]
+		if !ok {
+			// obligations of an additional build configuration are keyed construct@configuration
+			if i := strings.LastIndex(o.Key, "@"); i > 0 {
+				f, ok = open[o.Rule+"|"+o.Key[:i]]
+			}
+		}
+		if ok {
 			known++
 			o.St = "known-finding"
 			knownLines = append(knownLines, fmt.Sprintf("KNOWN-FINDING: property=%s %s %s %s", r.Property, o.Rule, o.Key, f.WhatFails))
